@@ -150,6 +150,9 @@ func (l *Ledger) Add(o Ob) {
 		if why, ok := l.residue[o.Key]; ok {
 			o.Status, o.Why = Assumed, o.Why+" [residue: "+why+"]"
 			l.resUsed[o.Key] = true
+		} else if pat, why, ok := l.residueGlob(o.Key); ok {
+			o.Status, o.Why = Assumed, o.Why+" [residue: "+why+"]"
+			l.resUsed[pat] = true
 		} else if what, ok := l.known[o.Key]; ok {
 			o.Status, o.Why = Known, o.Why+" [known: "+what+"]"
 			l.knownUsed[o.Key] = true
@@ -338,4 +341,39 @@ func relFiles(p *Prog) []string {
 		out = append(out, strings.TrimPrefix(f, p.Repo+"/"))
 	}
 	return out
+}
+
+// residueGlob: a residue entry may leave the container of an index expression open ("…|index|*[i-32]|*": whatever table
+// of the function is indexed by that expression): the audited statement is about the index value, not about one spelling
+// of the table. '*' matches any run of characters; everything else is literal.
+func (l *Ledger) residueGlob(key string) (string, string, bool) {
+	for pat, why := range l.residue {
+		if !strings.Contains(pat, "*") {
+			continue
+		}
+		if globMatch(pat, key) {
+			return pat, why, true
+		}
+	}
+	return "", "", false
+}
+
+func globMatch(pat, s string) bool {
+	parts := strings.Split(pat, "*")
+	if !strings.HasPrefix(s, parts[0]) {
+		return false
+	}
+	s = s[len(parts[0]):]
+	for i := 1; i < len(parts); i++ {
+		p := parts[i]
+		if i == len(parts)-1 {
+			return strings.HasSuffix(s, p)
+		}
+		j := strings.Index(s, p)
+		if j < 0 {
+			return false
+		}
+		s = s[j+len(p):]
+	}
+	return true
 }
